@@ -159,8 +159,10 @@ class Ctx:
             if sig in seen_sig:
                 continue
             seen_sig.add(sig)
-            if (self.prop, sig) in kf:
-                known_hit.append((sig, kf[(self.prop, sig)].get("what", f["what"])))
+            # a signature names the property whose oracle produced it (C11 re-uses the C01/C02/C03/C05/C10 oracles on pooled runs)
+            kprop = sig.split("/", 1)[0] if sig.split("/", 1)[0] != "unproved" else self.prop
+            if (kprop, sig) in kf:
+                known_hit.append((sig, kf[(kprop, sig)].get("what", f["what"])))
                 continue
             rp = REPLAYS / f"{self.prop}_{hashlib.blake2b(sig.encode(), digest_size=6).hexdigest()}.json"
             rp.write_text(json.dumps({"property": self.prop, "signature": sig, "what": f["what"], "suite": f["suite"],
